@@ -62,13 +62,25 @@ struct IHM {
 // iterator refers to it) plays the role of the value so that incarnations of a key can be told apart.
 inline int node_id(const void* p) { return (int)(((uintptr_t)p & 0xfffffff) >> 3); }
 
-template <class S>
+// SH > 0: the stored key is (k << SH) | low with varying low bits, for comparators that order by key >> SH only
+// (a legal strict weak ordering whose equivalence classes are coarser than operator==, like a case-insensitive
+// string comparison): equivalent keys are one key for the set, whichever representative is passed.
+struct CoarseLess {
+  bool operator()(int a, int b) const { return (a >> 1) < (b >> 1); }
+};
+template <class S, int SH = 0>
 struct SetAd : IHM {
   S s;
-  bool emplace(int k, int) override { return s.emplace(k); }
+  static int to(int k) {
+    if (SH == 0) return k;
+    static thread_local int cnt = 0;
+    return (k << SH) | ((cnt++ + xsim::self()) & ((1 << SH) - 1));
+  }
+  static int from(int key) { return key >> SH; }
+  bool emplace(int k, int) override { return s.emplace(to(k)); }
   std::pair<bool, int> emplace_or_get(int k, int) override {
-    auto r = s.emplace_or_get(k);
-    int key = *r.first;
+    auto r = s.emplace_or_get(to(k));
+    int key = from(*r.first);
     if (key != k) xsim::fail("wrong-element", "emplace_or_get(%d) returned an iterator to %d", k, key);
     return {r.second, node_id(&*r.first)};
   }
@@ -78,21 +90,21 @@ struct SetAd : IHM {
     emplace_or_get(k, 0);
     return 0;
   }
-  bool erase(int k) override { return s.erase(k); }
+  bool erase(int k) override { return s.erase(to(k)); }
   Found find(int k) override {
-    auto it = s.find(k);
+    auto it = s.find(to(k));
     if (it == s.end()) return {false, 0};
-    if (*it != k) xsim::fail("wrong-element", "find(%d) returned an iterator to %d", k, *it);
+    if (from(*it) != k) xsim::fail("wrong-element", "find(%d) returned an iterator to %d", k, from(*it));
     return {true, node_id(&*it)};
   }
-  bool contains(int k) override { return s.contains(k); }
+  bool contains(int k) override { return s.contains(to(k)); }
   Found erase_it(int k, int& next_key, void (*between)(int, int)) override {
-    auto it = s.find(k);
+    auto it = s.find(to(k));
     if (it == s.end()) return {false, 0};
     int id = node_id(&*it);
     between(k, id);
     auto nx = s.erase(std::move(it));
-    next_key = nx == s.end() ? -1 : *nx;
+    next_key = nx == s.end() ? -1 : from(*nx);
     return {true, id};
   }
   void traverse(const TCb& cb) override {
@@ -100,11 +112,11 @@ struct SetAd : IHM {
     auto it = s.begin();
     cb.post_step();
     while (it != s.end()) {
-      int k = *it;
+      int k = from(*it);
       if (cb.on_yield(k, node_id(&*it))) {
         auto copy = it; // copies of the iterator stay valid too
         it = s.erase(std::move(copy));
-        cb.post_erase(it == s.end() ? -1 : *it);
+        cb.post_erase(it == s.end() ? -1 : from(*it));
       } else {
         cb.pre_step();
         ++it;
